@@ -152,7 +152,10 @@ var $go = (fun, args) => {
             }
             $goroutine.exit = true;
         } catch (err) {
-            if (!$goroutine.exit) {
+            /* runtime.Goexit() unwinds by throwing null; anything else (a panic raised by a
+               deferred call while the goroutine is exiting) must still crash the program. */
+            if (!$goroutine.exit || err !== null) {
+                $goroutine.exit = false; /* dying from a panic, not exiting: no deadlock check below */
                 throw err;
             }
         } finally {
